@@ -187,4 +187,26 @@ PledgePeriodValid(H, t) ==
     /\ InAcceptWindow(t)
     /\ t - L[Len(L)].ts >= T12h
     /\ t - L[Len(L)].ts <= T7d
+
+\* ---- the views reported for a timestamp (C11) ---------------------------------------------
+\* Custodian history C: sequence of update ticks in increasing order (C[1] = 0 is the genesis
+\* custodian, written at epoch + 1 ns: queries use t >= 1).  ReadCustodian(t): the latest update
+\* whose timestamp is <= t (index, 0 = none).
+CustodianAt(C, t) == Cardinality({i \in 1..Len(C) : C[i] <= t})
+
+\* everything the node reports about membership for timestamp t, as one record
+ViewOf(H, G, t) ==
+    LET L   == NodesAt(H, t)
+        rm  == IF L = <<>> THEN NoNode ELSE RemovingAt(H, t)
+        Acc == StateSeq(L, Accepted)
+        def == Len(Acc) >= MinNodes
+    IN [list |-> [i \in 1..Len(L) |-> [n |-> L[i].n, st |-> L[i].st, ci |-> ConsensusIndexIn(L, i)]],
+        acc |-> NodeIds(Acc),
+        keys |-> ReadyKeysL(L, rm, G, t),
+        thrF |-> ThresholdL(L, rm, G, t, TRUE),
+        thrN |-> ThresholdL(L, rm, G, t, FALSE),
+        pledging |-> PledgingL(L),
+        electres |-> IF def THEN "ok" ELSE "panic",
+        elect |-> IF def THEN [k \in 1..5 |-> Acc[ElectIndex(Len(Acc), <<OpMint, OpPledge, OpRemove, OpCustodianUpdate, OpCustodianSlash>>[k], t)].n]
+                  ELSE <<>>]
 =============================================================================
